@@ -79,6 +79,7 @@ package ucfg
 //@ pure
 //@ ensures err == nil ==> c != nil && c.fields != nil
 //@ ensures err == nil ==> c == cfgEval(self)
+//@ ensures err != nil ==> cfgEval(self) == nil
 
 //@ func (*fields).array
 //@ props C12
@@ -104,6 +105,9 @@ package ucfg
 //@ props C12
 //@ requires elem != nil
 //@ ensures [hit] err == nil && cfgEval(elem) != nil ==> 0 <= i.i && i.i < len(cfgEval(elem).fields.a) && result == cfgEval(elem).fields.a[i.i]
+//@ ensures [prim] err == nil && cfgEval(elem) == nil ==> i.i == 0 && result == elem
+//@ ensures [miss] cfgEval(elem) != nil && !(0 <= i.i && i.i < len(cfgEval(elem).fields.a)) ==> err != nil
+//@ ensures [noobj] cfgEval(elem) == nil && i.i != 0 ==> err != nil
 
 //@ func lexer$1$2
 //@ props C07
@@ -227,7 +231,6 @@ package ucfg
 //@ ensures err == nil ==> r != nil && r == mvSpec(old, v)
 
 //@ func mergeConfigMergeArr
-//@ props C01
 //@ requires to != nil && to.fields != nil && from != nil && from.fields != nil
 //@ requires base(from.fields.a) != base(to.fields.a)
 //@ requires len(to.fields.a) + len(from.fields.a) < 9223372036854775807
